@@ -32,7 +32,7 @@ TIERS = {
     "quick": dict(exh=12, pend_by_len=[(7, 99), (12, 2)], sim=64, live_max=48, pool_first=30, pool_per_len=2, typed=6,
                   wire=dict(nshards=2, workers=4, nprof=2, maxlen=2, deep=False, timeout=900),
                   tlc_workers=8, jobs=8),
-    "thorough": dict(exh=16, pend_by_len=[(9, 99), (14, 2), (16, 1)], sim=1024, live_max=128, pool_first=300, pool_per_len=2, typed=6,
+    "thorough": dict(exh=16, pend_by_len=[(9, 99), (16, 2)], sim=1024, live_max=128, pool_first=300, pool_per_len=2, typed=6,
                      wire=dict(nshards=4, workers=2, nprof=3, maxlen=3, deep=False, timeout=3000),
                      tlc_workers=8, jobs=8),
 }
